@@ -277,3 +277,11 @@ Theorem C02_functions_even : forall ora c p ell var nugget r,
   /\ variogram_elem (Rops02 ora) c p ell var nugget (- r) = variogram_elem (Rops02 ora) c p ell var nugget r.
 Proof. exact elem_functions_even. Qed.
 Print Assumptions C02_functions_even.
+
+(* 11. where validity is claimed: the bounds of the standard arguments (the constructor / setters / fit must reject the rest) *)
+Theorem C02_base_bounds : forall ora v,
+  let O := Rops02 ora in
+  (in_bounds O (base_bound O BVar) v = true <-> 0 < v) /\ (in_bounds O (base_bound O BLenScale) v = true <-> 0 < v)
+  /\ (in_bounds O (base_bound O BNugget) v = true <-> 0 <= v) /\ (in_bounds O (base_bound O BAnis) v = true <-> 0 < v).
+Proof. exact base_bounds_meaning. Qed.
+Print Assumptions C02_base_bounds.
